@@ -1,6 +1,6 @@
 (* C08/Proofs.v — umbrella: re-exports the lemma files and proves the instance obligations over
    the schema that is regenerated from the current tree on every run (Generated/OtlpProto.v). *)
-From Verif Require Export Common.Base C08.Model C08.Proofs1 C08.Proofs2 C08.Proofs3 C08.Proofs4 C08.Proofs5 C08.Proofs6 C08.Proofs7 C08.Json C08.Proofs8 C08.Proofs9 C08.Proofs10 C08.Proofs11 C08.T1Tie.
+From Verif Require Export Common.Base C08.Model C08.Proofs1 C08.Proofs2 C08.Proofs3 C08.Proofs4 C08.Proofs5 C08.Proofs6 C08.Proofs7 C08.Json C08.Proofs8 C08.Proofs9 C08.Proofs10 C08.Proofs11 C08.Proofs12 C08.Proofs14 C08.T1Tie.
 From Verif Require Import Generated.OtlpProto Generated.C08JsonDecoders.
 Local Open Scope N_scope.
 
@@ -110,6 +110,15 @@ Proof.
   split; [apply migrate_clears_l|apply migrate_idem_l]; auto; apply mig_ok_spec; exact H.
 Qed.
 
+(* after EVERY public protobuf decode path, on every byte string, no deprecated field is left *)
+Lemma otlp_paths_clear_l p m b v : In m request_roots ->
+  decode_path OtlpSchema p m b = Some v -> no_deprecated OtlpSchema m v = true.
+Proof.
+  intros Hin H. rewrite decode_path_is_migrate_l in H.
+  destruct (decode OtlpSchema m b) as [d|] eqn:Hd; [|discriminate]. cbn [option_map] in H. inversion H; subst v.
+  apply otlp_migrate_clears_l; [exact Hin|]. eapply (decode_res_shaped OtlpSchema otlp_schema_wf_l); eauto.
+Qed.
+
 Lemma otlp_profiles_paths_l p b :
   decode_path OtlpSchema p m_collector_profiles_v1development_ExportProfilesServiceRequest b
   = decode OtlpSchema m_collector_profiles_v1development_ExportProfilesServiceRequest b.
@@ -127,16 +136,15 @@ Definition legacy_witnesses : list (nat * pv) :=
     (m_collector_metrics_v1_ExportMetricsServiceRequest, legacy_request m_collector_metrics_v1_ExportMetricsServiceRequest m_metrics_v1_ResourceMetrics m_metrics_v1_ScopeMetrics);
     (m_collector_trace_v1_ExportTraceServiceRequest, legacy_request m_collector_trace_v1_ExportTraceServiceRequest m_trace_v1_ResourceSpans m_trace_v1_ScopeSpans) ].
 
-(* on legacy bytes the two public protobuf paths decode different payloads; the one ProtoUnmarshaler
-   builds still carries the deprecated field and does not survive JSON *)
-Definition paths_differ_on (w : nat * pv) : bool :=
+(* on the bytes of a legacy sender every public path now yields the migrated payload: no deprecated
+   field, the scopes in scope_*, and it survives JSON *)
+Definition legacy_ok (w : nat * pv) : bool :=
   let m := fst w in let b := encode OtlpSchema m (snd w) in
-  match decode_path OtlpSchema PProtoUnmarshaler m b, decode_path OtlpSchema PExportRequestProto m b with
-  | Some x, Some y =>
-      negb (pv_eqb x y) && negb (no_deprecated OtlpSchema m x) && no_deprecated OtlpSchema m y
-      && canonical OtlpSchema m x
-      && negb (option_eqb pv_eqb (of_json OtlpSchema OtlpJsonDecoders OtlpEnums m (to_json OtlpSchema m x)) (Some x))
+  match decode OtlpSchema m b, decode_path OtlpSchema PProtoUnmarshaler m b with
+  | Some raw, Some x =>
+      negb (no_deprecated OtlpSchema m raw) && no_deprecated OtlpSchema m x && canonical OtlpSchema m x
+      && option_eqb pv_eqb (of_json OtlpSchema OtlpJsonDecoders OtlpEnums m (to_json OtlpSchema m x)) (Some x)
   | _, _ => false
   end.
-Lemma otlp_paths_differ_l : forallb paths_differ_on legacy_witnesses = true.
+Lemma otlp_legacy_ok_l : forallb legacy_ok legacy_witnesses = true.
 Proof. vm_compute. reflexivity. Qed.
